@@ -227,8 +227,7 @@ def extract_sim_constants(p_defaults: dict, script: str | None = None) -> dict:
     for name, (tg, args) in EXPECTED_WIRING.items():
         if name not in calls:
             raise MachineryError(f"rdd2_sim.py: call self.eqs[{name!r}] not found (wiring changed)")
-        ok = [c for c in calls[name] if c == (tg, args)]
-        if not ok:
+        if any(c != (tg, args) for c in calls[name]):        # every occurrence (velocity and bezier/auto-level branches alike)
             raise MachineryError(f"rdd2_sim.py: wiring of {name} changed: script has {calls[name]}, harness reproduces {(tg, args)}")
     for k, v in EXPECTED_FEEDBACK.items():
         if feedback.get(k) != v:
